@@ -428,6 +428,12 @@ func CheckMain(id, tier string, self string) int {
 	if n <= 0 {
 		n = 16
 	}
+	// thorough tier: the workers are built with -cover (run.sh) and leave their counters here
+	coverDir := ""
+	if os.Getenv("VERIF_COVER") != "" {
+		coverDir = filepath.Join(scratch, "cov")
+		os.MkdirAll(coverDir, 0o755)
+	}
 	budget := 100 * time.Second
 	if tier == "thorough" {
 		budget = 14 * time.Minute
@@ -457,6 +463,9 @@ func CheckMain(id, tier string, self string) int {
 		cmd.Env = append(os.Environ(), "GOMAXPROCS=2")
 		if n == 1 {
 			cmd.Env = os.Environ()
+		}
+		if coverDir != "" {
+			cmd.Env = append(cmd.Env, "GOCOVERDIR="+coverDir)
 		}
 		if err := cmd.Start(); err != nil {
 			fmt.Fprintln(os.Stderr, "cannot start worker:", err)
@@ -626,6 +635,11 @@ func CheckMain(id, tier string, self string) int {
 	if len(harnessErrs) > 0 {
 		cov["harness_errors"] = harnessErrs
 	}
+	if coverDir != "" {
+		if byFile := statementCoverage(coverDir); len(byFile) > 0 {
+			cov["statement_coverage_percent_by_file"] = byFile
+		}
+	}
 	ev := Evidence{PropertyID: id, Tier: tier, Seed: seed, Level: c.Level, Coverage: cov, Assumptions: c.Assumptions, WallS: time.Since(start).Seconds(), Violations: violations}
 	if ev.Assumptions == nil {
 		ev.Assumptions = []string{}
@@ -698,4 +712,60 @@ func ReplayMain(path string) int {
 		return 1
 	}
 	return 0
+}
+
+// statementCoverage turns the workers' coverage counters into statement coverage per source file of the
+// subject (measured answer to "did the enumeration reach the code the property is anchored in").
+func statementCoverage(dir string) map[string]float64 {
+	prof := filepath.Join(dir, "profile.txt")
+	cmd := exec.Command("go", "tool", "covdata", "textfmt", "-i="+dir, "-o="+prof)
+	cmd.Env = append(os.Environ(), "GOFLAGS=-mod=mod", "GOPROXY=off", "GOSUMDB=off", "GOTOOLCHAIN=local")
+	if out, err := cmd.CombinedOutput(); err != nil {
+		fmt.Fprintf(os.Stderr, "covdata: %v %s\n", err, out)
+		return nil
+	}
+	b, err := os.ReadFile(prof)
+	if err != nil {
+		return nil
+	}
+	type blk struct{ stmts, hit int }
+	blocks := map[string]map[string]*blk{}
+	for _, l := range strings.Split(string(b), "\n") {
+		// file:startLine.startCol,endLine.endCol numStmts count
+		i := strings.LastIndex(l, ":")
+		if i < 0 || strings.HasPrefix(l, "mode:") {
+			continue
+		}
+		file, rest := l[:i], l[i+1:]
+		f := strings.Fields(rest)
+		if len(f) != 3 || !strings.Contains(file, "paulsonkoly/calc/") {
+			continue
+		}
+		ns, _ := strconv.Atoi(f[1])
+		cnt, _ := strconv.Atoi(f[2])
+		if blocks[file] == nil {
+			blocks[file] = map[string]*blk{}
+		}
+		bb := blocks[file][f[0]]
+		if bb == nil {
+			bb = &blk{stmts: ns}
+			blocks[file][f[0]] = bb
+		}
+		if cnt > 0 {
+			bb.hit = 1
+		}
+	}
+	res := map[string]float64{}
+	for file, m := range blocks {
+		tot, hit := 0, 0
+		for _, bb := range m {
+			tot += bb.stmts
+			hit += bb.stmts * bb.hit
+		}
+		if tot > 0 {
+			name := file[strings.Index(file, "paulsonkoly/calc/")+len("paulsonkoly/calc/"):]
+			res[name] = float64(int(1000*float64(hit)/float64(tot))) / 10
+		}
+	}
+	return res
 }
